@@ -393,6 +393,10 @@ asn1f_fix_constructed(arg_t *arg) {
 	case ASN_CONSTR_SET:
 	case ASN_CONSTR_CHOICE:
 		break;
+	case ASN_CONSTR_SEQUENCE_OF:
+	case ASN_CONSTR_SET_OF:
+		/* Fix tagging of the element type */
+		return asn1f_fix_constr_tag(arg, 0);
 	default:
 		return 0;
 	}
